@@ -123,6 +123,11 @@ fn handle_generator_response(response_payload: Vec<u8>, output_dir: &Option<Stri
     // TODO: Convert the diagnostics we decode from the generator, into diagnostics that slicec can handle.
     //       To do this requires re-working the diagnostic API fairly substantially.
     for generator_diagnostic in generator_diagnostics {
+        // If the generator reported an error, it failed: we report that, and don't generate any of its files.
+        if matches!(generator_diagnostic.level, definition_types::DiagnosticLevel::Error) {
+            let message = generator_diagnostic.message;
+            return Err(Error::other(format!("the generator reported an error: {message}")));
+        }
         println!("{}", generator_diagnostic.message);
     }
     let mut diagnostics = Diagnostics::new();
